@@ -128,7 +128,9 @@ FieldDefault(f) ==
       [] f.dv = "assoc_path" -> "from_src:3"         \* #[default(Holder::SRC3)]     -> Into
       [] f.dv = "call"       -> "call:5"             \* #[default(mk(5))]            as is
       [] f.dv = "block"      -> "call:6"             \* #[default({ mk(6) })]        as is
-      [] f.dv = "method"     -> "call:4"             \* #[default(mk(4).clone())]    as is
+      [] f.dv = "method"     -> "call:4"             \* #[default(mk(4).same())]     as is
+      [] f.dv = "int"        -> "int:5"              \* #[default(5)] on a u8 field: as is (Into would infer i32 and fail)
+      [] f.dv = "neg"        -> "int:-3"             \* #[default(-3)] on an i8 field: as is
 
 \* which variant default() constructs; 0 = rejected
 DefaultVariant(P) ==
